@@ -18,7 +18,7 @@ import (
 // it executes the line protocol of lean/Driver/NodeSim.lean on the real node.
 //
 //	reset
-//	init <reward> <maturity> <minFee> <guardFrom> <genesis block>
+//	init <reward> <maturity> <minFee> <guardFrom> <checkRewardFrom> <genesis block>
 //	deliver <block>      → main|side|orphan|err <tipHeight> <tipId>
 //	submit <tx>          → ok | err
 //	irr <lih> <dpos> <revertStart>
@@ -77,8 +77,8 @@ func (s *Sim) reset() {
 // InitLine is the `init` op for the current node.
 func (s *Sim) InitLine() string {
 	p := s.N.Params
-	return fmt.Sprintf("init %d %d %d %d %s", int64(p.PowConfiguration.RewardPerBlock), p.PowConfiguration.CoinbaseMaturity,
-		int64(p.MinTransactionFee), p.CRCOnlyDPOSHeight, s.N.Describe(s.N.Genesis))
+	return fmt.Sprintf("init %d %d %d %d %d %s", int64(p.PowConfiguration.RewardPerBlock), p.PowConfiguration.CoinbaseMaturity,
+		int64(p.MinTransactionFee), p.CRCOnlyDPOSHeight, p.CheckRewardHeight, s.N.Describe(s.N.Genesis))
 }
 
 // TipLine is "<height> <id>" of the active tip.
